@@ -73,90 +73,84 @@ Fixpoint spec_states (s : aspec) (tr : list entry) : option (list aspec) :=
     end
   end.
 
-Definition ent_rows (kv : list kvent) (c : N) : list msg :=
-  sort_by m_seq
-    (flat_map (fun e => match e with
-                        | KRow c' q i c2 cno uid h pl ts _ => if c' =? c then [M q i c2 cno uid h pl ts] else []
-                        | _ => []
-                        end) kv).
-
-Definition ent_ck (kv : list kvent) (c : N) : option (N * N * N) :=
-  match flat_map (fun e => match e with KCkpt c' a b d => if c' =? c then [(a, b, d)] else [] | _ => [] end) kv with
-  | x :: _ => Some x
-  | [] => None
+(* the recovered physical keys as a store (None: an undecodable or foreign key) *)
+Fixpoint kvs_of_ents (l : list kvent) : option kvs :=
+  match l with
+  | [] => Some []
+  | e :: r => match kv_of_ent e, kvs_of_ents r with
+              | Some kv, Some rest => Some (kv :: rest)
+              | _, _ => None
+              end
   end.
 
-Definition ent_ret (kv : list kvent) (c : N) : option (N * N * N) :=
-  match flat_map (fun e => match e with KRet c' a b d => if c' =? c then [(a, b, d)] else [] | _ => [] end) kv with
-  | x :: _ => Some x
-  | [] => None
-  end.
-
-Definition ent_hist (kv : list kvent) (c : N) : list (N * N) :=
-  sort_pairs (flat_map (fun e => match e with KHist c' o ep => if c' =? c then [(o, ep)] else [] | _ => [] end) kv).
-
-(* the recovered store shows exactly the plain logs [s] *)
-Definition recovered_is (kv : list kvent) (leos : list N) (s : aspec) : bool :=
+(* the recovered store shows exactly the plain logs [s]: rows, log end (read
+   through the API after recovery), checkpoint and epoch points of every channel *)
+Definition recovered_is (kv : kvs) (leos : list N) (s : aspec) : bool :=
   forallb (fun c =>
              let l := as_log s c in
-             msgs_eqb (ent_rows kv c) (amsgs l)
+             msgs_eqb (map messageFromRow (rows_of kv c)) (amsgs l)
              && (nth_or 0 (N.to_nat c) leos =? al_leo l)
-             && option_eqb triple_eqb (ent_ck kv c) (al_ck l)
-             && list_eqb npair_eqb (ent_hist kv c) (al_hist l)) all_chans.
+             && option_eqb triple_eqb (loadCheckpoint kv c) (al_ck l)
+             && list_eqb npair_eqb (loadHistory kv c) (al_hist l)) all_chans.
 
-Definition has_row (kv : list kvent) (p : N -> N -> N -> bytes -> bytes -> N -> N -> bool) : bool :=
-  existsb (fun e => match e with
-                    | KRow c q i _ cno uid h _ _ fl => p c q i cno uid h fl
-                    | _ => false
-                    end) kv.
+Definition has_key (kv : kvs) (k : key) : bool := match kget k kv with Some _ => true | None => false end.
 
-(* index invariant of a recovered store: every index entry points at a stored
-   row with those fields (nothing dangles), every stored row has its index
-   entries (ids / pairs tainted by a trusted duplicate excepted), the retention
-   state is well formed, no row at or below the physical retention boundary, the
-   log end is the last row or the retained maximum, and nothing undecodable *)
-Definition kv_inv (kv : list kvent) (leos : list N) (taint : aspec) : bool :=
-  forallb (fun e =>
-    match e with
-    | KBad _ | KOther _ => false
-    | KGid i c2 q => has_row kv (fun c q' i' _ _ _ _ => (c =? c2) && (q' =? q) && (i' =? i))
-    | KCidx c cno q v =>
-      (v =? q) && has_row kv (fun c' q' _ cno' uid' _ _ => (c' =? c) && (q' =? q) && bytes_eqb cno' cno && is_nil uid')
-    | KIdem c cno uid q i h =>
-      has_row kv (fun c' q' i' cno' uid' h' _ => (c' =? c) && (q' =? q) && (i' =? i) && (h' =? h)
-                                                 && bytes_eqb cno' cno && bytes_eqb uid' uid)
-    | KSseq c uid q i =>
-      has_row kv (fun c' q' i' _ uid' _ fl => (c' =? c) && (q' =? q) && (i' =? i) && bytes_eqb uid' uid
-                                               && (N.land fl syncOnceFlag =? 0))
-    | KRow c q i c2 cno uid h pl _ fl =>
-      (c2 =? c) && negb (i =? 0) && (h =? hashPayload pl) && (1 <=? q)
-      && (existsb (N.eqb i) (as_tids taint)
-          || existsb (fun e' => match e' with KGid i' c' q' => (i' =? i) && (c' =? c) && (q' =? q) | _ => false end) kv)
-      && (negb (negb (is_nil cno) && is_nil uid)
-          || existsb (fun e' => match e' with KCidx c' cno' q' _ => (c' =? c) && (q' =? q) && bytes_eqb cno' cno | _ => false end) kv)
-      && (negb (both_nonempty uid cno) || pair_tainted (as_log taint c) uid cno
-          || existsb (fun e' => match e' with
-                                | KIdem c' cno' uid' q' _ _ => (c' =? c) && (q' =? q) && bytes_eqb cno' cno && bytes_eqb uid' uid
-                                | _ => false end) kv)
-      && (negb (negb (is_nil uid) && (N.land fl syncOnceFlag =? 0))
-          || existsb (fun e' => match e' with KSseq c' uid' q' _ => (c' =? c) && (q' =? q) && bytes_eqb uid' uid | _ => false end) kv)
-      && existsb (fun e' => match e' with KCat c' _ => c' =? c | _ => false end) kv
-      && match ent_ret kv c with Some (_, p, _) => p <? q | None => true end
-    | KRet c l p r => (p <=? l) && (l <=? r) && negb (l =? 0)
-    | KCkpt _ _ lso hw => lso <=? hw
-    | KCat c c2 => c =? c2
-    | KHist _ _ ep => negb (ep =? 0)
-    end) kv
-  && forallb (fun c =>
-       let last := match rev (ent_rows kv c) with m :: _ => m_seq m | [] => 0 end in
-       let rmax := match ent_ret kv c with Some (_, _, r) => r | None => 0 end in
-       nth_or 0 (N.to_nat c) leos =? N.max last rmax) all_chans.
+(* index invariant of one binding of a recovered store: every index entry points
+   at a stored row with those fields (nothing dangles); every stored row is well
+   formed, lies above the physical retention boundary and has its index entries
+   (ids / pairs tainted by a trusted duplicate excepted); the retention state is
+   well formed *)
+Definition chk_entry (kv : kvs) (taint : aspec) (b : key * value) : bool :=
+  match b with
+  | (KyGid i, VGid c q) =>
+    match kget (KyRow c q) kv with Some (VRow r) => r_id r =? i | _ => false end
+  | (KyCidx c n q, _) =>
+    match kget (KyRow c q) kv with
+    | Some (VRow r) => bytes_eqb (r_cno r) n && is_nil (r_uid r) && negb (is_nil n)
+    | _ => false
+    end
+  | (KyIdem c n u, VIdem q i h) =>
+    match kget (KyRow c q) kv with
+    | Some (VRow r) => bytes_eqb (r_cno r) n && bytes_eqb (r_uid r) u && (r_id r =? i) && (r_hash r =? h)
+                       && negb (is_nil n) && negb (is_nil u)
+    | _ => false
+    end
+  | (KySseq c u q, _) =>
+    match kget (KyRow c q) kv with
+    | Some (VRow r) => bytes_eqb (r_uid r) u && negb (is_nil u) && (N.land (r_flags r) syncOnceFlag =? 0)
+    | _ => false
+    end
+  | (KyRow c q, VRow r) =>
+    (r_seq r =? q) && (r_ch r =? c) && negb (r_id r =? 0) && (r_hash r =? hashPayload (r_payload r)) && (1 <=? q)
+    && mem_N c all_chans
+    && (mem_N (r_id r) (as_tids taint)
+        || match kget (KyGid (r_id r)) kv with Some (VGid c' q') => (c' =? c) && (q' =? q) | _ => false end)
+    && (negb (negb (is_nil (r_cno r)) && is_nil (r_uid r)) || has_key kv (KyCidx c (r_cno r) q))
+    && (negb (both_nonempty (r_uid r) (r_cno r)) || pair_tainted (as_log taint c) (r_uid r) (r_cno r)
+        || match kget (KyIdem c (r_cno r) (r_uid r)) kv with
+           | Some (VIdem q' i' h') => (q' =? q) && (i' =? r_id r) && (h' =? r_hash r)
+           | _ => false
+           end)
+    && (negb (negb (is_nil (r_uid r)) && (N.land (r_flags r) syncOnceFlag =? 0)) || has_key kv (KySseq c (r_uid r) q))
+    && match loadRetentionState kv c with Some (_, p, _) => p <? q | None => true end
+  | (KyRet _, VTriple l p r) => (p <=? l) && (l <=? r) && negb (l =? 0)
+  | _ => true
+  end.
+
+(* ... of the whole store, plus: the recovered log end is the last row or the retained maximum *)
+Definition kv_inv (kv : kvs) (leos : list N) (taint : aspec) : bool :=
+  forallb (chk_entry kv taint) kv
+  && forallb (fun c => nth_or 0 (N.to_nat c) leos =? recoverLEO kv c) all_chans.
 
 Definition crash_ok (states : list aspec) (c : crash) : bool :=
   match c with
-  | Cr labels leos kv =>
-    forallb (label_ok (fun j => (j <? length states)%nat && recovered_is kv leos (nth_or as_init j states))) labels
-    && kv_inv kv leos (nth_or as_init (pred (length states)) states)
+  | Cr labels leos ents =>
+    match kvs_of_ents ents with
+    | None => false
+    | Some kv =>
+      forallb (label_ok (fun j => (j <? length states)%nat && recovered_is kv leos (nth_or as_init j states)
+                                  && kv_inv kv leos (nth_or as_init j states))) labels
+    end
   end.
 
 Definition C09_monitor (c : c09_case) : N :=
